@@ -24,7 +24,7 @@ import Mathlib.Algebra.Group.Defs
                                 (`quat_noncomm_witness` shows the order matters.)
   * `rint_error`, `roundTo_error`   `|rint y − y| ≤ 1/2`, `|roundTo s x − x| ≤ 1/(2s)` for `s > 0`.
   * `composeRot_real`           closed form of `composeRot` at ℝ for unit axes on one qubit.
-  * `mkAxis_unit`, `mkAxis_error_iff`  `mkAxis` is the identity on unit vectors; at ℝ it fails only on the zero vector.
+  * `mkAxis_unit`, `mkAxis_error_iff_value`  `mkAxis` is the identity on unit vectors; at ℝ it fails only on the zero vector.
   * `normalizeAngle_shift`, `quat_shift`  `normalizeAngle` shifts by a multiple of `2π`; that changes `quat` by a sign.
   * `compose_crisp`             under the crisp hypotheses (honest identity test, exact rounding): identity branch
                                 `quat a * quat b = ±1` and `r` is the identity rotation; general branch
@@ -268,11 +268,11 @@ theorem composeRot_real (atol : ℝ) (a b : Rot ℝ) (ha : UnitVec a.axis) (hb :
 
 /-! ### `mkAxis`, `normalizeAngle` at ℝ -/
 
-theorem maxAbs_real (v : Vec3 ℝ) : v.maxAbs = max (max |v.1| |v.2.1|) |v.2.2| := by
+theorem vmaxAbs_real (v : Vec3 ℝ) : v.maxAbs = max (max |v.1| |v.2.1|) |v.2.2| := by
   simp only [Vec3.maxAbs, maxS_real, absS_real]
 
-theorem maxAbs_eq_zero_iff (v : Vec3 ℝ) : v.maxAbs = 0 ↔ v = (0, 0, 0) := by
-  rw [maxAbs_real]
+theorem vmaxAbs_eq_zero_iff (v : Vec3 ℝ) : v.maxAbs = 0 ↔ v = (0, 0, 0) := by
+  rw [vmaxAbs_real]
   constructor
   · intro h
     have h1 : |v.1| ≤ 0 := h ▸ le_trans (le_max_left _ _) (le_max_left _ _)
@@ -286,19 +286,19 @@ theorem maxAbs_eq_zero_iff (v : Vec3 ℝ) : v.maxAbs = 0 ↔ v = (0, 0, 0) := by
     rw [e1, e2, e3]
   · rintro rfl; simp
 
-theorem maxAbs_nonneg (v : Vec3 ℝ) : 0 ≤ v.maxAbs := by
-  rw [maxAbs_real]; exact le_trans (abs_nonneg _) (le_max_right _ _)
+theorem vmaxAbs_nonneg (v : Vec3 ℝ) : 0 ≤ v.maxAbs := by
+  rw [vmaxAbs_real]; exact le_trans (abs_nonneg _) (le_max_right _ _)
 
 theorem maxAbs_pos_of_unit (u : Vec3 ℝ) (hu : UnitVec u) : 0 < u.maxAbs := by
-  rcases (maxAbs_nonneg u).lt_or_eq with h | h
+  rcases (vmaxAbs_nonneg u).lt_or_eq with h | h
   · exact h
   · exfalso
-    have := (maxAbs_eq_zero_iff u).mp h.symm
+    have := (vmaxAbs_eq_zero_iff u).mp h.symm
     rw [this] at hu
     simp [UnitVec] at hu
 
 /-- `mkAxis` at ℝ fails exactly on the zero vector (everything is finite), with `ValueError`. -/
-theorem mkAxis_error_iff (v : Vec3 ℝ) (e : Err) : mkAxis v = .error e ↔ (v = (0, 0, 0) ∧ e = .value) := by
+theorem mkAxis_error_iff_value (v : Vec3 ℝ) (e : Err) : mkAxis v = .error e ↔ (v = (0, 0, 0) ∧ e = .value) := by
   have hd : Scalar.decEqB v.maxAbs (zero : ℝ) = decide (v.maxAbs = 0) := by
     show decide (v.maxAbs = zero) = _
     rw [zero_real]
@@ -307,12 +307,12 @@ theorem mkAxis_error_iff (v : Vec3 ℝ) (e : Err) : mkAxis v = .error e ↔ (v =
   by_cases h : v.maxAbs = 0
   · rw [if_pos h]
     constructor
-    · intro he; injection he with he; exact ⟨(maxAbs_eq_zero_iff v).mp h, he.symm⟩
+    · intro he; injection he with he; exact ⟨(vmaxAbs_eq_zero_iff v).mp h, he.symm⟩
     · rintro ⟨_, rfl⟩; rfl
   · rw [if_neg h]
     constructor
     · intro he; cases he
-    · rintro ⟨hv, _⟩; exact absurd ((maxAbs_eq_zero_iff v).mpr hv) h
+    · rintro ⟨hv, _⟩; exact absurd ((vmaxAbs_eq_zero_iff v).mpr hv) h
 
 /-- `mkAxis` is the identity on unit vectors (whichever way the magnitude pre-scaling test goes). -/
 theorem mkAxis_unit (u : Vec3 ℝ) (hu : UnitVec u) : mkAxis u = .ok u := by
@@ -524,7 +524,7 @@ theorem compose_error_cases (atol : ℝ) (a b : Rot ℝ) (ha : UnitVec a.axis) (
         simp only [Except.map] at h
         injection h with h
         subst h
-        obtain ⟨hv, he⟩ := (mkAxis_error_iff _ _).mp hm
+        obtain ⟨hv, he⟩ := (mkAxis_error_iff_value _ _).mp hm
         simp only [Prod.mk.injEq] at hv
         exact ⟨he, Or.inr ⟨hq, hs, hv.1, hv.2.1, hv.2.2⟩⟩
   · rw [compose_error_diff_qubits atol a b hq] at h
